@@ -89,11 +89,12 @@ func formTokenMatcher(delims []string) *regexp.Regexp {
 	// [^T]|T[^A]|TA[^G]|TAG[^!]|TAG![^R]|TAG!R[^I]|TAG!RI[^G]|TAG!RIG[^H]|TAG!RIGH[^T]
 	exclusion := make([]string, 0, len(delims[3]))
 	for idx, val := range delims[3] {
-		exclusion = append(exclusion, "[^"+string(val)+"]")
+		// the delimiter's characters are literals, whatever they mean in a regular expression
+		exclusion = append(exclusion, "[^"+regexp.QuoteMeta(string(val))+"]")
 		if idx > 0 {
 			// idx counts bytes, exclusion has one entry per character
 			last := len(exclusion) - 1
-			exclusion[last] = delims[3][0:idx] + exclusion[last]
+			exclusion[last] = regexp.QuoteMeta(delims[3][0:idx]) + exclusion[last]
 		}
 	}
 
